@@ -579,18 +579,54 @@ func ruleDropHook() check.Rule {
 					}
 					n := 0
 					ast.Inspect(fd.Body, func(x ast.Node) bool {
-						ifs, ok := x.(*ast.IfStmt)
-						if !ok {
-							return true
-						}
 						var fail ast.Node
 						matched := false
-						for _, a := range atoms {
-							if implies(ifs.Cond, true, a) {
-								matched, fail = true, ifs.Else
-							} else if implies(ifs.Cond, false, a) {
-								matched, fail = true, ifs.Body
+						var at ast.Node
+						switch y := x.(type) {
+						case *ast.IfStmt:
+							at = y
+							for _, a := range atoms {
+								if implies(y.Cond, true, a) {
+									matched, fail = true, y.Else
+								} else if implies(y.Cond, false, a) {
+									matched, fail = true, y.Body
+								}
 							}
+						case *ast.SwitchStmt:
+							// switch s.status { case KindNext: deliver; default: refuse }: the clauses other than the open one refuse
+							if y.Tag == nil {
+								return true
+							}
+							at = y
+							var rest []ast.Stmt
+							for _, cl := range y.Body.List {
+								cc, ok := cl.(*ast.CaseClause)
+								if !ok {
+									continue
+								}
+								open := false
+								for _, e := range cc.List {
+									eq := &ast.BinaryExpr{X: y.Tag, OpPos: e.Pos(), Op: token.EQL, Y: e}
+									for _, a := range atoms {
+										if implies(eq, true, a) {
+											open = true
+										}
+									}
+								}
+								if open {
+									matched = true
+								} else {
+									rest = append(rest, cc.Body...)
+								}
+							}
+							if matched {
+								fail = &ast.BlockStmt{Lbrace: y.Body.Lbrace, List: rest, Rbrace: y.Body.Rbrace}
+								if len(rest) == 0 {
+									fail = nil
+								}
+							}
+						default:
+							return true
 						}
 						if !matched {
 							return true
@@ -599,9 +635,9 @@ func ruleDropHook() check.Rule {
 						c.Inc("refusal_branches", 1)
 						key := fmt.Sprintf("ro.%s.%s/refusal#%d", tname, fd.Name.Name, n)
 						if callsHook(fail) {
-							c.OK(key, ifs.Pos(), "the refusing branch reports the notification to OnDroppedNotification")
+							c.OK(key, at.Pos(), "the refusing branch reports the notification to OnDroppedNotification")
 						} else {
-							c.Violation(key, ifs.Pos(), "a notification refused by the status gate is discarded silently: OnDroppedNotification is not called on the refusing branch")
+							c.Violation(key, at.Pos(), "a notification refused by the status gate is discarded silently: OnDroppedNotification is not called on the refusing branch")
 						}
 						return true
 					})
